@@ -47,25 +47,12 @@ HYPOTHESES = {
 
 def locked_drive(ctx, lines):
     """
-    Drive the generated model under the project lock, after making sure Generated/Disease_*.lean and their .olean files
-    are those of the tree under test: concurrent ./check runs of other properties (each regenerates every Generated
-    file from ITS repo) may otherwise swap the model between the prove step and the correspondence.
+    Drive the generated model.  (Round 1 took the project lock and re-extracted here because concurrent checks could swap
+    Generated/*.lean between the prove step and the correspondence; the framework now serialises extract+build itself,
+    gives scratch-tree runs a private copy of the Lean project and locks inside `ctx.drive`, so nothing is needed here -
+    and taking the lock here would deadlock with `ctx.drive`.)
     """
-    import fcntl, os
-    from harness import framework as F, extract
-    if F._RUN_LOCK_HELD[0]:
-        # the framework now holds the project lock for the whole check run: nothing can have been swapped
-        return ctx.drive(DRIVER, lines)
-    lock = open(os.path.join(F.LEAN, '.verif.lock'), 'w')
-    fcntl.flock(lock, fcntl.LOCK_EX)
-    try:
-        res = extract.run_all(F.REPO, os.path.join(F.LEAN, F.PKG, 'Generated'), only=GENERATED)
-        rc, out, err = F.sh(['lake', 'build'] + DRIVER_MODULES, cwd=F.LEAN, timeout=1800)
-        if rc != 0:
-            raise F.DriverError('generated disease modules do not build: ' + (out + err)[-1500:])
-        return ctx.drive(DRIVER, lines)
-    finally:
-        fcntl.flock(lock, fcntl.LOCK_UN)
+    return ctx.drive(DRIVER, lines)
 
 
 HYP_SIGNATURE = {
